@@ -6,9 +6,11 @@ open Olric Olric.DMap
 structure CSt where
   n : Nat := 0
   cfg : Cfg := {}
-  cl : Cluster := []
+  cl : Cluster := Cluster.empty
   routes : List ((Bytes × Key) × Route) := []
   unreachable : List Nat := []
+  mcq : Nat := 1
+  numMembers : List (Nat × Nat) := []     -- member ↦ member count it currently sees (if overridden)
 
 def CSt.route (s : CSt) (dm : Bytes) (k : Key) : Route := (s.routes.lookup (dm, k)).getD ⟨[0], []⟩
 def CSt.reach (s : CSt) : Reach := fun m => !(s.unreachable.contains m)
@@ -51,14 +53,26 @@ def fmtDRes : DMap.Res → String
 
 def range (n : Nat) : List Nat := List.range n
 
+def dataOps : List String := ["c.put", "c.get", "c.getx", "c.del", "c.expire"]
+
+/-- C05: a member that sees fewer members than MemberCountQuorum answers cluster-quorum to everything -/
+def CSt.belowQuorum (s : CSt) (entry : Nat) : Bool :=
+  match s.numMembers.lookup entry with
+  | some n => decide (n < s.mcq)
+  | none => false
+
 def clusterStep (s : CSt) (now : Int) (op : String) (a : List String) : Option (CSt × String) :=
   let arg (i : Nat) : String := a.getD i ""
+  if dataOps.contains op && s.belowQuorum (nat (arg 1)) then some (s, "cq") else
   match op with
   | "c.new" =>
     let n := optNat a "n" 1
     let cfg : Cfg := { R := optNat a "r" 1, W := optNat a "w" 1, RQ := optNat a "rq" 1,
                        readRepair := optNat a "rr" 0 == 1, dmTTL := (optNat a "ttl_ms" 0 : Nat) * 1000000 }
-    some ({ n := n, cfg := cfg, cl := (range n).map (fun _ => {}), routes := [], unreachable := [] }, s!"ok n={n}")
+    some ({ n := n, cfg := cfg, cl := Cluster.empty, routes := [], unreachable := [], mcq := 1 }, s!"ok n={n}")
+  | "c.mcq" => some ({ s with mcq := nat (arg 0) }, "ok")
+  | "c.unreach" => some ({ s with unreachable := nat (arg 0) :: s.unreachable }, "ok")
+  | "c.nummembers" => some ({ s with numMembers := (nat (arg 0), nat (arg 1)) :: s.numMembers.filter (·.1 != nat (arg 0)) }, "ok")
   | "c.own" =>
     -- c.own <dmap> <key> <prims>/<baks>   (the route is an input: read from the running cluster)
     let dm := (arg 0).toUTF8.toList
